@@ -140,7 +140,28 @@ def run(ctx):
 
 
 def replay(ctx, path):
-    obj = json.load(open(path))["replay"]
+    """Re-runs the recorded crash run (history, crash point) on the implementation with the recorded seed and tier
+    and evaluates the same monitors; exit 1 when the failure reproduces."""
+    data = json.load(open(path))
+    obj = data["replay"]
     print(json.dumps(obj, indent=1))
-    print("re-run: ./vcheck C03 (crash runs are enumerated deterministically: history, crash-point index, label, step)")
-    return 1
+    m = re.match(r"CR (\d+) (\d+) ", obj.get("case", "")) if isinstance(obj, dict) else None
+    if not m:
+        print("no single failing input is recorded (broken obligation): re-run ./vcheck C03")
+        return 1
+    ctx.translate()
+    if not (ctx.cargo_build(["crash"]) and ctx.ocaml_build()):
+        return 1
+    env = dict(os.environ, VERIF_TIER=data.get("tier", "quick"), VERIF_SEED=str(data.get("seed", 0)),
+               VERIF_BOOTSTRAP_PERSISTS_TIP=flag("BOOTSTRAP_PERSISTS_TIP"))
+    out = os.path.join(ctx.work, "cr-replay.txt")
+    rc = subprocess.call([ctx.bin("crash"), out, "case", m.group(1), m.group(2)], env=env, stdout=subprocess.DEVNULL, stderr=subprocess.DEVNULL)
+    if rc != 0:
+        print(f"crash harness exited with {rc}")
+        return 1
+    _rc, text, _ = vlib.sh([vlib.DRIVER, out], timeout=600)
+    fails = [l for l in text.splitlines() if l.startswith("FAIL")]
+    for l in fails:
+        print(l[:600])
+    print("reproduced" if fails else "not reproduced on this tree")
+    return 1 if fails else 0
